@@ -228,6 +228,9 @@ def coreRequest (maxTotal : Nat) (req : Request) (st : BlockState) : Request × 
   | (req1, st1, .ok false) => handleBlock2 req1 st1
   | (req1, st1, r) => (req1, st1, r)
 
+/-- `MAXIMUM_TOKEN_LENGTH.saturating_sub(token.len())` -/
+def tokenReserve (p : Packet) : Nat := Consts.maximumTokenLength - p.token.length
+
 /-- the state-passing core of `intercept_response` -/
 def coreResponse (maxTotal : Nat) (req : Request) (st : BlockState) : Request × BlockState × HRes Bool :=
   match req.response with
@@ -239,7 +242,8 @@ def coreResponse (maxTotal : Nat) (req : Request) (st : BlockState) : Request ×
       | .herr c => (req, st, .herr c)
       | .panic => (req, st, .panic)
       | .ok size =>
-        match negotiate st.lastBlock2 size resp.payload.length maxTotal with
+        -- D19 fix: room for a maximum-length token in the follow-up replies
+        match negotiate st.lastBlock2 (size + tokenReserve resp) resp.payload.length maxTotal with
         | .herr c => (req, st, .herr c)
         | .panic => (req, st, .panic)
         | .ok none => (req, st, .ok false)
